@@ -4,4 +4,5 @@ namespace SleapVerif.Arch
 theorem tableUnet_32_r1 : tableUnet 32 ⟨1, 1⟩ = true := by decide +kernel
 theorem tableUnet_32_r32 : tableUnet 32 ⟨3, 2⟩ = true := by decide +kernel
 theorem tableUnet_32_r2 : tableUnet 32 ⟨2, 1⟩ = true := by decide +kernel
+theorem tableUnetCpb1_32 : tableUnetCpb1 32 = true := by decide +kernel
 end SleapVerif.Arch
